@@ -129,8 +129,13 @@ def encode_command_string(bcp_command, **kwargs) -> str:
         else:  # cast anything else as a string
             value = str(value)
 
-        kwarg_string += '{}={}&'.format(quote(k, ''),
-                                        value)
+        name = quote(k, '')
+        if name == 'bytes':
+            # '&bytes=<n>' at the end of a line announces a binary payload to read_message(). Keep a parameter of
+            # that name apart from it; names are percent-decoded by the receiver, which still sees 'bytes'.
+            name = '%62ytes'
+
+        kwarg_string += '{}={}&'.format(name, value)
 
     kwarg_string = kwarg_string[:-1]
 
